@@ -202,7 +202,8 @@ def literal(rng):
                                    b'0000:0000:0000:0000:0000:ffff:124.123.123.1234', b'1234:6789:1234:6789:1234:6789:1234:6789:123400',
                                    b'0000:0000:0000:0000:0000:0000:124.123.123.123', b'1234:6789:1234:6789:1234:6789:1234:6789:12340'])
     else:
-        b = rng.choice([b'ipv6:::1', b'IPV6:::1', b'IPv6', b'IPv6:', b'', b'::1', b'IPv4:1.2.3.4', b'IPv6:1.2.3.4', b'1.2.3.4\r', b'IPv6:::1%eth0'])
+        b = rng.choice([b'ipv6:::1', b'IPV6:::1', b'IPv6', b'IPv6:', b'', b'::1', b'IPv4:1.2.3.4', b'IPv6:1.2.3.4', b'1.2.3.4\r', b'IPv6:::1%eth0',
+                        b':::1', b'I:::1', b'IP:::1', b'IPv:::1', b'IPv:1::2', b'IPv66:::1', b'IPv6x:::1', b'IPv:2001:db8::1', b':2001:db8::1', b'IPv6 :::1'])   # tags that are a prefix / an extension of the real one
     return b'[' + b + b']'
 
 
